@@ -158,6 +158,31 @@ void gen_incl_pair(Rng& r, const Pool& pool, int max_states, bool sparse, TA& A,
 	if (r.chance(1, 10)) std::swap(A, B);
 }
 
+// Pairs in which ONE state of the smaller automaton stands at several child positions of a rule (f(q,q)->r) and
+// acquires several incomparable macro-states one after the other (a unary detour g(q)->q1, g(q1)->q makes the
+// later ones appear only after the earlier ones were processed).  The bigger automaton is a g-chain whose
+// states are the macro-states, with f-rules for a drawn subset of the pairs: a missing pair (i,j) is a
+// counterexample that is reachable only by combining an OLD macro-state at one position with a NEW one at another.
+TA repeat_pair_smaller(Rng& r, TA& bigger) {
+	TA a; bigger = TA(); int period = r.range(1, 2);            // q -> q1 -> q (period 2) or q -> q (period 1)
+	{ Rule x; x.sym = "a"; x.parent = 0; a.rules.insert(x); }
+	if (period == 2) { Rule x; x.sym = "g"; x.parent = 1; x.ch = {0}; a.rules.insert(x); Rule y; y.sym = "g"; y.parent = 0; y.ch = {1}; a.rules.insert(y); }
+	else { Rule x; x.sym = "g"; x.parent = 0; x.ch = {0}; a.rules.insert(x); }
+	{ Rule x; x.sym = "f"; x.parent = 5; x.ch = {0, 0}; a.rules.insert(x); } a.finals.insert(5);
+	if (r.chance(1, 4)) { Rule x; x.sym = "f"; x.parent = 5; x.ch = {0, 0, 0}; x.ch.pop_back(); x.ch[1] = period == 2 ? 1 : 0; a.rules.insert(x); }
+	int m = r.range(2, 5);                                      // chain X0 -g-> X1 -g-> ... -g-> X(m-1) -g-> X(back)
+	{ Rule x; x.sym = "a"; x.parent = 10; bigger.rules.insert(x); }
+	for (int i = 0; i + 1 < m; ++i) { Rule x; x.sym = "g"; x.parent = 10 + i + 1; x.ch = {10 + i}; bigger.rules.insert(x); }
+	{ Rule x; x.sym = "g"; x.parent = 10 + long(r.below(uint64_t(m))); x.ch = {10 + m - 1}; bigger.rules.insert(x); }
+	int dropped = 0;
+	for (int i = 0; i < m; ++i) for (int j = 0; j < m; ++j) {
+		if (r.chance(1, 5) && dropped < 2) { ++dropped; continue; }
+		Rule x; x.sym = "f"; x.parent = 30; x.ch = {10 + i, 10 + j}; bigger.rules.insert(x);
+	}
+	bigger.finals.insert(30);
+	return a;
+}
+
 FA gen_fa(Rng& r, const std::vector<std::string>& syms, int max_states, bool sparse) {
 	FA a; int n = r.chance(1, 30) ? 0 : r.range(1, max_states);
 	std::vector<long> st;
